@@ -11,7 +11,7 @@ def tx(t):
 
 
 def texts(fn):
-    return A.TList(tx(t) for t in T.templates_of(fn))
+    return A.TList(tx(t) for t in T.templates_both(fn))
 
 
 def need(ctx, key, cond, where, msg, detail=None):
@@ -455,7 +455,7 @@ def rule_delegation(ctx):
     )
     need(ctx, "as:bodies", "<#field_tyas#trait_ty>::#method_ident(#field_ref)" in tt and "ImplKind::Direct=>Cow::Borrowed(&field_ref)" in t, w, "direct / forwarded AsRef bodies changed")
     spec = [s for s in tt if "__extract_ref" in s]
-    need(ctx, "as:specialized:shape", len(spec) == 1 and "usederive_more::__private::ExtractRefas_;letconv=<derive_more::__private::Conv<&#mut_#field_ty,#return_ty>asderive_more::core::default::Default>::default();" in spec[0], w, "the autoref-specialised body changed", {"templates": spec})
+    need(ctx, "as:specialized:shape", len(spec) >= 1 and all("usederive_more::__private::ExtractRefas_;letconv=<derive_more::__private::Conv<&#mut_#field_ty,#return_ty>asderive_more::core::default::Default>::default();" in x for x in spec), w, "the autoref-specialised body changed", {"templates": spec})
     # autoref levels: identity impls are on `&Conv<..>`, forwarding ones on `Conv<..>`; the call needs one more `&`
     lib = ctx.files.get("src/as.rs")
     if lib is None:
